@@ -1041,3 +1041,26 @@ notation!(
 	}
 );
 
+
+#[cfg(feature = "verif")]
+pub mod verif {
+	//! Verification hooks (feature `verif`, off by default): forwarding wrappers only, so that harnesses can
+	//! drive `_write` / `_len` / `_read` of a single attribute or pool entry instead of a whole class file.
+	use super::{AttributeInfo, CpInfo};
+
+	pub fn attribute_write(attribute: &AttributeInfo, writer: &mut Vec<u8>) -> std::io::Result<()> { attribute._write(writer) }
+	pub fn attribute_len(attribute: &AttributeInfo) -> u32 { attribute._len() }
+	pub fn attribute_read(mut bytes: &[u8], pool: &Vec<CpInfo>) -> std::io::Result<(AttributeInfo, usize)> {
+		let before = bytes.len();
+		let attribute = AttributeInfo::_read(&mut bytes, Some(pool))?;
+		Ok((attribute, before - bytes.len()))
+	}
+	pub fn cp_info_write(entry: &CpInfo, writer: &mut Vec<u8>) -> std::io::Result<()> { entry._write(writer) }
+	pub fn cp_info_len(entry: &CpInfo) -> u32 { entry._len() }
+	pub fn cp_info_read(mut bytes: &[u8]) -> std::io::Result<(CpInfo, usize)> {
+		let before = bytes.len();
+		let entry = CpInfo::_read(&mut bytes, None)?;
+		Ok((entry, before - bytes.len()))
+	}
+	pub fn pool_has_utf8(pool: Option<&Vec<CpInfo>>, index: u16, value: &[u8]) -> std::io::Result<bool> { super::pool_has_utf8(pool, index, value) }
+}
